@@ -177,6 +177,11 @@ impl Reader {
     /// (it sleeps and retries a WAL read lock for up to ~10 s): the reader process is killed - it gave
     /// up, which releases whatever it held - and the step counts as refused.
     pub fn cmd(&mut self, c: &str) -> Value {
+        self.cmd_within(c, Duration::from_millis(250))
+    }
+    /// The same with a caller-chosen patience (the checks after the restore has returned contend
+    /// with nobody; a slow answer there is only a slow machine).
+    pub fn cmd_within(&mut self, c: &str, patience: Duration) -> Value {
         if self.dead {
             return json!({"ok": false, "code": "ReaderGaveUp"});
         }
@@ -184,7 +189,7 @@ impl Reader {
             machinery_error("reader process is gone");
         }
         let _ = self.stdin.flush();
-        match self.rx.recv_timeout(Duration::from_millis(250)) {
+        match self.rx.recv_timeout(patience) {
             Ok(line) => serde_json::from_str(&line).unwrap_or_else(|_| machinery_error("reader answered garbage")),
             Err(std::sync::mpsc::RecvTimeoutError::Timeout) => {
                 let _ = self.child.kill();
@@ -508,9 +513,10 @@ pub fn run_case_b(t: &Templates, case: &CaseB, reader: Reader, scratch: &Path) -
     }
     // a fresh reader afterwards: entirely new after success, entirely old after failure
     let mut rd = if ctrl.reader.is_dead() { Reader::spawn() } else { ctrl.reader };
-    let _ = rd.cmd(&format!("open {}", db.display()));
-    let a = rd.cmd("read");
-    let _ = rd.cmd("close");
+    let long = Duration::from_secs(30);
+    let _ = rd.cmd_within(&format!("open {}", db.display()), long);
+    let a = rd.cmd_within("read", long);
+    let _ = rd.cmd_within("close", long);
     let want = if res.is_ok() { &new } else { &old };
     let got = (a["count"].as_i64().unwrap_or(-1), a["sum"].as_i64().unwrap_or(-1), a["tags"].as_str().unwrap_or("").to_string());
     if a["ok"] != true || got != *want || a["integrity"] != "ok" {
